@@ -137,6 +137,10 @@ def run(pid, tier, seed, a, t0):
         res = fn(pid, tier)
         items.extend(res)
     timeout = P.get("timeout", 60)
+    assumed_obls = [o for o in allobls if getattr(o, "assumed", None)]
+    allobls = [o for o in allobls if not getattr(o, "assumed", None)]
+    for o in assumed_obls:
+        items.append(Item(o.oid, "assumed", "ok", 0.0, o.assumed, "assumed", o.lineno, o.desc, contract=getattr(o, "contract", None)))
     solver_s = discharge.discharge(allobls, timeout_s=timeout)
     xcheck = None
     if tier == "thorough" and not P.get("no_crosscheck"):
@@ -361,6 +365,7 @@ def write_evidence(pid, P, tier, seed, items, functions, solver_s, xcheck, struc
                 "filtered by the contract's requires; distinct = distinct argument tuples that passed requires; "
                 "these are labelled bounded and never counted in obligations/discharged",
         "not_decided": P.get("not_decided", []),
+        "assumed_obligations": [{"id": i.iid, "clause": (i.desc or "")[:200], "reason": i.detail} for i in items if i.label == "assumed"],
         "samples": samples or [{"note": "no non-trivial obligation"}],
         "contracts_not_attached": [{"function": c.key, "reason": str(e)} for c, e in structural],
         "known_findings_matched": [s["what"] for _, s in known],
